@@ -174,7 +174,7 @@ func pickS(rng *rand.Rand, xs ...string) string { return xs[rng.Intn(len(xs))] }
 
 func randomPlan(rng *rand.Rand, run int) Plan {
 	sc := Sc{Ver: recVersions[rng.Intn(len(recVersions))], RV: "known", InRoom: rng.Intn(5) != 0, JR: "public", Mem: "none", Allow: []string{},
-		APL: "ok", AHere: true, TB: "ok", QErr: "none", Known: true, UQ: "ok"}
+		APL: "ok", AHere: true, TB: "ok", QErr: "none", Known: true, UQ: "ok", Stripped: "none"}
 	flow := pickS(rng, "join", "join", "join", "leave", "invite")
 	switch flow {
 	case "join":
@@ -199,6 +199,7 @@ func randomPlan(rng *rand.Rand, run int) Plan {
 	case "leave":
 		sc.Mem = pickS(rng, "join", "invite", "ban", "leave", "none")
 	case "invite":
+		sc.Stripped = pickS(rng, "none", "given")
 		sc.Known = rng.Intn(2) == 0
 		if sc.Known {
 			sc.Mem = pickS(rng, "none", "leave", "invite", "join", "ban")
